@@ -108,7 +108,12 @@ CtxAllowed(op, rt, seen) ==
 (* Every call hands its reader a response object of its own (`wrap`): a    *)
 (* reader may keep it beyond the call.  RecyclesWrappers = TRUE models a   *)
 (* pool that takes the wrapper back when the reader returns (mutant).      *)
-CONSTANTS NCallers, OnceIsNilCheck, RecyclesWrappers
+(* The consumer a reader is handed may close the stream it consumed      *)
+(* (ByteStreamConsumer(ClosesStream)): it closes the body of ITS call.     *)
+(* SharedCloser = TRUE: the closer is one variable shared by all calls     *)
+(* (mutant): the call that finishes closes the body of the call that       *)
+(* entered the consumer last.                                              *)
+CONSTANTS NCallers, OnceIsNilCheck, RecyclesWrappers, SharedCloser
 
 Callers == 1..NCallers
 
@@ -123,7 +128,9 @@ BInit == [ pc     |-> [i \in Callers |-> "params"],
            onceDone |-> FALSE, onceBusy |-> FALSE,
            wrap   |-> [i \in Callers |-> 0],       \* the response object handed to (and kept by) caller i's reader
            slots  |-> [k \in Callers |-> 0],       \* response objects: the token of the response they show
-           free   |-> {} ]                         \* objects back in the pool
+           free   |-> {},                          \* objects back in the pool
+           lastIn |-> 0,                           \* the caller that entered the consumer last
+           closed |-> {} ]                         \* callers whose body was closed while they were still reading it
 
 BNext(b, i) ==
   CASE b.pc[i] = "params" -> { [b EXCEPT !.pc[i] = "once", !.req[i] = i] }
@@ -142,10 +149,13 @@ BNext(b, i) ==
          LET fresh == CHOOSE k \in Callers : b.slots[k] = 0 /\ \A j \in Callers : (j < k => b.slots[j] # 0)
              cands == IF RecyclesWrappers /\ b.free # {} THEN b.free ELSE {fresh} IN
          { [b EXCEPT !.pc[i] = "read", !.inbox[i] = m.token, !.wire = @ \ {m},
-                     !.wrap[i] = k, !.slots[k] = m.token, !.free = @ \ {k}]
+                     !.wrap[i] = k, !.slots[k] = m.token, !.free = @ \ {k}, !.lastIn = i]
            : m \in { x \in b.wire : x.from = i }, k \in cands }
-    [] b.pc[i] = "read" -> { [b EXCEPT !.pc[i] = "done", !.got[i] = b.slots[b.wrap[i]],
-                                       !.free = IF RecyclesWrappers THEN @ \cup {b.wrap[i]} ELSE @] }
+    [] b.pc[i] = "read" ->    \* the consumer finishes: reads the rest (fails if the body was closed under it), closes "its" stream
+         LET victim == IF SharedCloser THEN b.lastIn ELSE i IN
+         { [b EXCEPT !.pc[i] = "done", !.got[i] = IF i \in b.closed THEN 0 ELSE b.slots[b.wrap[i]],
+                     !.closed = IF victim # i /\ b.pc[victim] = "read" THEN @ \cup {victim} ELSE @,
+                     !.free = IF RecyclesWrappers THEN @ \cup {b.wrap[i]} ELSE @] }
     [] OTHER -> {}
 
 \* each caller receives the response to its own request
@@ -165,6 +175,10 @@ BodySizes == {"empty", "small", "atcap", "overcap"}
 CodeBodySeen(debug, size) == size                      \* DumpResponse re-installs the complete body
 BodyAllowed(debug, size, seen) == seen = size
 DebugCapsBody(debug, size) == IF debug /\ size = "overcap" THEN "atcap" ELSE size     \* mutant
+\* ... and whether or not connection reuse wraps the body, also for a body whose Read sometimes makes no progress
+\* ((0, nil) on a non-empty buffer: allowed by io.Reader, "nothing happened"): stutter = such Reads occur before the end
+StutterBodySeen(reuse, stutter, size) == size
+StutterIsEOF(reuse, stutter, size) == IF reuse /\ stutter /\ size # "empty" THEN "cut" ELSE size     \* mutant
 
 \* (2) The ClientOperation is an input of Submit: it is not modified, so a second Submit of the same value sees the
 \*     transport-wide context of *that* call.  rtNow = [id, cancelled] (id 0: none).
